@@ -128,6 +128,15 @@ class RedisRecycleEnv(Env):
     def d_QueryFut(s, M, st, th, v): return True
     def d_Pipeline(s, M, st, th, v): return True
     def d_Cmd(s, M, st, th, v): return True
+
+    # deadpool core's Object::take is the reference: the wrapper's take must be exactly one call of it on the wrapped object
+    def p_Object__take(s, M, st, th, ci, a):
+        st.logev('object_take', repr(a[0]))
+        st.gset('object_takes', st.gget('object_takes', ()) + (a[0],))
+        return s.ret(st, Agg('Taken', [a[0]]))
+    def d_Taken(s, M, st, th, v): return True
+    def d_PooledObject(s, M, st, th, v):
+        st.gset('pooled_dropped', st.gget('pooled_dropped', 0) + 1); return True
     def d_RedisError(s, M, st, th, v): return True
     # classification helpers of the redis crate's error type: the reply that failed may be of either class
     def _either(s, M, st, what):
@@ -223,6 +232,26 @@ def run_c17(prog, job):
                 oblige('recycle() rejects only a reply that does not echo the PING value', st, simp(z3.Not(replies[idx][1] == n_sent)))
             if out == 'panic': oblige('recycle() panicked', st, False)
             return n_sent
+
+        # ---- Connection::take(this) == managed::Object::take(this.conn)
+        tk = [n for n in M.fns if n.endswith('::take') and (path.split('redis/src/')[1] in n if flavour != 'standalone' else ('redis/src/lib.rs' in n)) and M.fns[n].crate == 'deadpool_redis']
+        if len(tk) != 1: raise Unmodelled(f'Connection::take of the {flavour} flavour: {tk}')
+        stt = State(); stt.log = (('init', flavour), ('act', 'take'))
+        pooled = Agg('PooledObject', [Opaque('the-pooled-connection')])
+        try:
+            outs_t = W.call(stt, 'A', tk[0], [Agg('Connection', [pooled])])
+        except (Unmodelled, InternalError) as e:
+            # the pooled object is an opaque stand-in: anything but handing it to Object::take cannot be followed - and is not "exactly as taking the underlying object does"
+            outs_t = []
+            oblige(f'Connection::take only hands the wrapped object to Object::take (it does something else: {str(e)[:120]})', stt, False)
+        npaths += len(outs_t)
+        if outs_t: oblige('Connection::take runs to completion on exactly one path', stt, len(outs_t) == 1 and outs_t[0][1][0] == 'ok')
+        for st_t, r_t in outs_t:
+            takes = st_t.gget('object_takes', ())
+            oblige('Connection::take takes the underlying object exactly once (Object::take on the wrapped object)', st_t, len(takes) == 1 and takes[0] is pooled)
+            oblige('Connection::take returns what Object::take returned', st_t, r_t[0] == 'ok' and isinstance(r_t[1], Agg) and r_t[1].ty == 'Taken' and r_t[1].f[0] is pooled)
+            oblige('Connection::take talks to nobody else (no command is sent, the pooled object is not dropped behind the pool\'s back)', st_t,
+                   not st_t.gget('sent', ()) and not st_t.gget('pooled_dropped'))
 
         base = State()
         mvals = {'client': Agg('RedisClient', []), 'ping_number': Agg('Atomic', [c0]), 'connection_config': Agg('AsyncConnectionConfig', [])}
